@@ -532,7 +532,9 @@ func c04RandomBook(r *rand.Rand) gen.Book {
 
 // c04Num: every documented number form.
 func c04Num(r *rand.Rand) gen.Num {
-	switch r.Intn(9) {
+	switch r.Intn(10) {
+	case 9:
+		return gen.N(gen.MachineLimitInts[r.Intn(len(gen.MachineLimitInts))])
 	case 8:
 		// leading zeros are digits like any other (the grammar's Quantity is a digit string)
 		return gen.N([]string{"010", "0755", "-012", "+0100", "007.50", "00.5", "0017", "-00.25", "000", "0123456", "01e2", "08", "0x"[:1] + "9"}[r.Intn(13)])
